@@ -120,7 +120,8 @@ def _join_meet_duality(
                         # extract the point of intersection
                         result = Tensor(array[(slice(None),) + i[1:]], copy=False)
                 else:
-                    max_ind = np.abs(array).reshape((np.prod(array.shape[: coplanar.ndim]), -1)).argmax(1)
+                    tensor_size = int(np.prod(array.shape[coplanar.ndim :]))
+                    max_ind = np.abs(array).reshape((coplanar.size, tensor_size)).argmax(1)
                     i = np.unravel_index(max_ind, array.shape[coplanar.ndim :])
                     i = tuple(np.reshape(x, array.shape[: coplanar.ndim]) for x in i)
                     indices = tuple(np.indices(array.shape[: coplanar.ndim]))
